@@ -81,6 +81,23 @@ func buildQuiet(t *term, c *rt.Ctx) seq.Seq[int] {
 	return build8(t, c)
 }
 
+// wrapHead rebuilds the loop with `head` in front of the body of every iteration.
+func wrapHead(form string, head, loop seq.Seq[int], cond func() bool, body seq.Seq[int]) seq.Seq[int] {
+	b := seq.Combine[int](head, body)
+	switch form {
+	case "While":
+		return seq.While[int](cond, b)
+	case "For":
+		return seq.For[int](cond, func() {}, b)
+	}
+	return seq.Loop[int](seq.Combine[int](seq.Delay[int](func() seq.Seq[int] {
+		if !cond() {
+			return seq.Break[int]()
+		}
+		return seq.Normal[int]()
+	}), b))
+}
+
 func C17Runtime(r *core.Report, tier string) {
 	n := 1 << 12
 	if tier == "thorough" {
@@ -89,13 +106,14 @@ func C17Runtime(r *core.Report, tier string) {
 	bodies := nonYieldingBodies(3)
 	forms := []string{"Loop", "While", "For"}
 	type job struct {
-		form string
-		body *term
+		form       string
+		body       *term
+		afterYield bool
 	}
 	var jobs []job
 	for _, f := range forms {
 		for _, b := range bodies {
-			jobs = append(jobs, job{f, b})
+			jobs = append(jobs, job{f, b, false}, job{f, b, true})
 		}
 	}
 	type res struct {
@@ -124,7 +142,17 @@ func C17Runtime(r *core.Report, tier string) {
 		case "For":
 			loop = seq.For[int](cond, func() {}, body)
 		}
-		g := seq.Start(seq.Combine[int](loop, seq.Bind[int](1, seq.Normal[int])))
+		// the loop yields once right at its start and then runs n iterations without a yield: the
+		// stretch is entered from a resumed continuation, not from the first advance
+		first := true
+		head := seq.Delay[int](func() seq.Seq[int] {
+			if first && j.afterYield {
+				first = false
+				return seq.Bind[int](0, seq.Normal[int])
+			}
+			return seq.Normal[int]()
+		})
+		g := seq.Start(seq.Combine[int](wrapHead(j.form, head, loop, cond, body), seq.Bind[int](1, seq.Normal[int])))
 		for g.MoveNext() {
 		}
 		rs := &results[i]
@@ -140,7 +168,7 @@ func C17Runtime(r *core.Report, tier string) {
 		r.Add("transitions", n)
 		r.Add("traces_validated_against_impl", 1)
 		if rs.grows {
-			r.Fail(core.Failure{Key: fmt.Sprintf("seq:%s(%s)", jobs[i].form, jobs[i].body), Kind: "stack-growth",
+			r.Fail(core.Failure{Key: fmt.Sprintf("seq:%s(%s)%s", jobs[i].form, jobs[i].body, map[bool]string{false: "", true: " after a yield"}[jobs[i].afterYield]), Kind: "stack-growth",
 				Detail: "stack depth grows with the number of non-yielding iterations",
 				What:   "call-stack depth inside the loop is not bounded independently of the iteration count",
 				Replay: map[string]any{"iterations": n, "max_depth_first_quarter": rs.m1, "second_quarter": rs.m2, "second_half": rs.m3}})
